@@ -20,9 +20,6 @@ theorem nd_freshBook (b : Book) (j : Nat) (hj : j < b.size) : (freshBook b).nd j
   rw [Array.getElem?_eq_getElem (by simpa using hj), Array.getElem?_eq_getElem hj]
   simp
 
-/-- every link list of the book is ordered as the C++ containers order them -/
-def SortedLinks (b : Book) : Prop := ∀ j, SortedCh (b.nd j).children ∧ SortedPa (b.nd j).parents
-
 /-- links only grow -/
 def Grow (acc acc' : Book) : Prop :=
   ∀ j x, (x ∈ (acc.nd j).children → x ∈ (acc'.nd j).children) ∧ (x ∈ (acc.nd j).parents → x ∈ (acc'.nd j).parents)
@@ -47,9 +44,9 @@ structure DI (b : Book) (r : Nat → Nat) (acc : Book) (done : List Nat) : Prop 
     ∀ c ∈ childIds (b.nd j), c ∈ done
 
 section relink
-variable (b : Book) (r : Nat → Nat) (hF : FixedPoint b) (hr : Ranked b r) (hsort : SortedLinks b)
+variable (b : Book) (r : Nat → Nat) (hF : FixedPoint b) (hr : Ranked b r)
 
-include hF hr hsort in
+include hF hr in
 /-- one `addChild`/`addParent` pair of `setChildRefs` on node `i` -/
 theorem di_link (acc : Book) (done : List Nat) (i : Nat) (e : Nat × Nat) (hD : DI b r acc done) (hi : i < b.size)
     (hli : i = 0 ∨ parentIds (acc.nd i) ≠ []) (he : e ∈ (b.nd i).children) :
@@ -72,7 +69,7 @@ theorem di_link (acc : Book) (done : List Nat) (i : Nat) (e : Nat × Nat) (hD : 
       omega
   have huniq : ∀ x ∈ (acc.nd i).children, x.1 = e.1 → x = (e.1, e.2) := by
     intro x hx hx1
-    exact sortedCh_unique _ (hsort i).1 x e (hD.chSub i x hx) he hx1
+    exact sortedCh_unique _ (hF.sorted i).1 x e (hD.chSub i x hx) he hx1
   obtain ⟨hinv', hal⟩ := addLink_spec acc r e.2 e.1 i hD.inv (by rw [hD.size]; exact hi) (by rw [hD.size]; exact hc) hc0 hrk hli hpar huniq
   have hie : i ≠ e.2 := by intro h; rw [← h] at hrk; omega
   have hgrow : Grow acc (addLink acc e.2 e.1 i) := by
@@ -158,7 +155,7 @@ theorem di_link (acc : Book) (done : List Nat) (i : Nat) (e : Nat × Nat) (hD : 
     have := hD.doneFull j hj
     exact ⟨this.1, fun x hx => (hgrow j x).1 (this.2.1 x hx), this.2.2⟩
 
-include hF hr hsort in
+include hF hr in
 /-- `setChildRefs` on node `i`: all its child links -/
 theorem di_childrefs (done : List Nat) (i : Nat) (hi : i < b.size) :
     ∀ (l : List (Nat × Nat)) (acc : Book), (∀ e ∈ l, e ∈ (b.nd i).children) → DI b r acc done →
@@ -171,7 +168,7 @@ theorem di_childrefs (done : List Nat) (i : Nat) (hi : i < b.size) :
   | cons e t ih =>
     intro acc hl hD hli
     simp only [List.foldl_cons]
-    obtain ⟨hD1, hg1, hn1⟩ := di_link b r hF hr hsort acc done i e hD hi hli (hl e (by simp))
+    obtain ⟨hD1, hg1, hn1⟩ := di_link b r hF hr acc done i e hD hi hli (hl e (by simp))
     have hli1 : i = 0 ∨ parentIds ((addLink acc e.2 e.1 i).nd i) ≠ [] := by
       rcases hli with h | h
       · exact Or.inl h
@@ -208,7 +205,7 @@ theorem di_grow_done {b : Book} {r : Nat → Nat} {acc : Book} {done : List Nat}
   · have := hD.doneFull j hjd
     exact ⟨this.1, this.2.1, fun c hc => List.mem_cons_of_mem _ (this.2.2 c hc)⟩
 
-include hF hr hsort in
+include hF hr in
 /-- `Book::initPositions` on node `i` -/
 theorem di_dfs : ∀ (f i : Nat) (acc : Book) (done : List Nat), b.size - r i < f → i < b.size →
     (i = 0 ∨ parentIds (acc.nd i) ≠ []) → DI b r acc done →
@@ -219,7 +216,7 @@ theorem di_dfs : ∀ (f i : Nat) (acc : Book) (done : List Nat), b.size - r i < 
   | zero => intro i acc done h; omega
   | succ f ih =>
     intro i acc done hf hi hli hD
-    obtain ⟨hD1, hg1, hfull1⟩ := di_childrefs b r hF hr hsort done i hi (b.nd i).children acc (fun e he => he) hD hli
+    obtain ⟨hD1, hg1, hfull1⟩ := di_childrefs b r hF hr done i hi (b.nd i).children acc (fun e he => he) hD hli
     generalize hb1 : (b.nd i).children.foldl (fun a e => addLink a e.2 e.1 i) acc = b1 at hD1 hg1 hfull1
     -- the recursion over the children
     have hinner : ∀ (l : List Nat) (s : Book × List Nat), (∀ c ∈ l, c ∈ childIds (b.nd i)) → DI b r s.1 s.2 → Grow b1 s.1 →
@@ -329,11 +326,11 @@ theorem di_fresh (hsmall : b.size < DEPTH_INF) : DI b r (freshBook b) [] := by
     · exact absurd (hpid j) h
   · intro j hj; simp at hj
 
-include hF hr hsort in
+include hF hr in
 /-- The relinking pass of `readFromFile` restores the book's links and a sound structure. -/
 theorem relinked_spec (hsmall : b.size < DEPTH_INF) : RelinkedAs b (relinked b) := by
   have hn := hF.nonempty
-  have hdfs := di_dfs b r hF hr hsort (b.size + 1) 0 (freshBook b) [] (by omega) hn (Or.inl rfl) (di_fresh b r hF hr hsmall)
+  have hdfs := di_dfs b r hF hr (b.size + 1) 0 (freshBook b) [] (by omega) hn (Or.inl rfl) (di_fresh b r hF hr hsmall)
   have hL : relinked b = (initPos b (b.size + 1) 0 (freshBook b, [])).1 := rfl
   rw [← hL] at hdfs
   generalize relinked b = L at hdfs
@@ -350,7 +347,7 @@ theorem relinked_spec (hsmall : b.size < DEPTH_INF) : RelinkedAs b (relinked b) 
     exact hpath j _ (path_of_depth b hF.struct _ j hj rfl)
   have hch : ∀ j, (L.nd j).children = (b.nd j).children := by
     intro j
-    apply sortedCh_ext _ _ (hD.chSorted j) (hsort j).1
+    apply sortedCh_ext _ _ (hD.chSorted j) (hF.sorted j).1
     intro x
     constructor
     · exact hD.chSub j x
@@ -360,7 +357,7 @@ theorem relinked_spec (hsmall : b.size < DEPTH_INF) : RelinkedAs b (relinked b) 
       · rw [nd_oob _ _ hj] at hx; simp [default_children] at hx
   have hpa : ∀ j, (L.nd j).parents = (b.nd j).parents := by
     intro j
-    apply sortedPa_ext _ _ (hD.paSorted j) (hsort j).2
+    apply sortedPa_ext _ _ (hD.paSorted j) (hF.sorted j).2
     intro x
     constructor
     · exact hD.paSub j x
@@ -372,7 +369,7 @@ theorem relinked_spec (hsmall : b.size < DEPTH_INF) : RelinkedAs b (relinked b) 
       · rw [nd_oob _ _ hj] at hx; simp [default_parents] at hx
   have hscal : ∀ j, j < b.size → (L.nd j).scal = (freshNode (j == 0) (b.nd j)).scal := by
     intro j hj; rw [hD.scal j, nd_freshBook b j hj]
-  refine ⟨⟨hD.inv.nonempty, hD.inv.wf, ⟨r, hD.inv.rk⟩, ⟨hD.inv.root.1, hD.inv.root.2, ?_⟩, ?_, hD.inv.par⟩,
+  refine ⟨⟨hD.inv.nonempty, hD.inv.wf, fun j => ⟨hD.chSorted j, hD.paSorted j⟩, ⟨r, hD.inv.rk⟩, ⟨hD.inv.root.1, hD.inv.root.2, ?_⟩, ?_, hD.inv.par⟩,
     hD.size, hD.costs, hD.pending, hch, hpa, ?_, ?_⟩
   · have := scal_fields (hscal 0 hn)
     simp only [pe2, this.2.2.2.2.2.2.2.1, this.2.2.2.2.2.2.2.2]; rfl
@@ -401,9 +398,9 @@ theorem relinked_spec (hsmall : b.size < DEPTH_INF) : RelinkedAs b (relinked b) 
 end relink
 
 /-- Saving and reloading reproduces the same graph and scores. -/
-theorem reload_roundtrip (b : Book) (hF : FixedPoint b) (hp : b.pending = []) (hsort : SortedLinks b)
-    (hsmall : b.size < DEPTH_INF) : reload true b = b := by
+theorem reload_roundtrip (b : Book) (hF : FixedPoint b) (hp : b.pending = []) (hsmall : b.size < DEPTH_INF) :
+    reload true b = b := by
   obtain ⟨r, hr⟩ := hF.acyclic
-  exact reload_roundtrip_partial b hF hp (relinked_spec b r hF hr hsort hsmall)
+  exact reload_roundtrip_partial b hF hp (relinked_spec b r hF hr hsmall)
 
 end Bk
